@@ -195,6 +195,10 @@ func (t *tr) stmtExt(s ast.Stmt, stmts []ast.Stmt, k cont) (string, bool) {
 		if x.Tok == token.BREAK && x.Label == nil && len(t.breakK) > 0 && t.loop == 0 && t.loopDepth == 0 {
 			return t.breakK[len(t.breakK)-1](), true
 		}
+		// continue inside the body of a generically translated range loop: this iteration decides nothing
+		if x.Tok == token.CONTINUE && x.Label == nil && t.spec.Closures && (t.loop > 0 || t.loopDepth > 0) && len(t.breakK) == 0 {
+			return "none", true
+		}
 	case *ast.TypeSwitchStmt:
 		return t.typeSwitch(x, memo(func() string { return t.block(stmts[1:], k) })), true
 	}
